@@ -153,6 +153,16 @@ class FrameStub:
     def empty(s):
         return len(s.rows) == 0
 
+    @property
+    def iat(s):
+        return ILoc(s)            # positional scalar access on a selected column
+
+    @property
+    def values(s):
+        if s.col is None:
+            raise NotImplementedError('values of a frame stub')
+        return [r[1][s.col] for r in s.rows]
+
     def __getitem__(s, col):
         if col not in ('Bid', 'Ask'):
             raise KeyError(col)
